@@ -3,6 +3,7 @@ package c09
 import (
 	"encoding/json"
 	"os"
+	"sort"
 	"strconv"
 	"strings"
 	"testing"
@@ -77,6 +78,8 @@ func enumerate(maxLen int) [][]Op {
 		}
 	}
 	rec(nil, 1)
+	// shortest first, so that the first failing sequence is a minimal one
+	sort.SliceStable(out, func(i, j int) bool { return len(out[i]) < len(out[j]) })
 	return out
 }
 
@@ -188,6 +191,7 @@ func genB(t *rapid.T) Case {
 		case "disconnect":
 			op.B = rapid.IntRange(-1, n-1).Draw(t, "named")
 			op.F = rapid.IntRange(0, 9).Draw(t, "removed") == 0
+			op.R = rapid.Bool().Draw(t, "pick-child")
 		}
 		c.Ops = append(c.Ops, op)
 	}
